@@ -2,6 +2,7 @@ package gen
 
 import (
 	"fmt"
+	"strconv"
 	"strings"
 
 	"pgregory.net/rapid"
@@ -182,6 +183,14 @@ func Where(rt *rapid.T, t *model.Table, direct bool, qual string) *model.Cond {
 				r = model.Operand{Col: t.Cols[same[rapid.IntRange(0, len(same)-1).Draw(rt, "wcol2")]].Name, Qual: qual}
 			} else {
 				v := litFor(rt, t, ci, direct)
+				if rapid.IntRange(0, 11).Draw(rt, "wmixed") == 0 {
+					// a literal of ANOTHER type that prints like the value ('1001' against 1001): values of
+					// different types are never equal - only = and != are defined for such a pair
+					if mv, ok := otherTypeSameText(v); ok {
+						v = mv
+						op = rapid.SampledFrom([]string{"=", "!="}).Draw(rt, "wmixedop")
+					}
+				}
 				r = model.Operand{Lit: &v}
 			}
 			if rapid.IntRange(0, 7).Draw(rt, "wswap") == 0 {
@@ -193,6 +202,27 @@ func Where(rt *rapid.T, t *model.Table, direct bool, qual string) *model.Cond {
 		c.Or = append(c.Or, conj)
 	}
 	return c
+}
+
+// otherTypeSameText returns a value of another type whose printed form is the
+// same as v's, when there is one that SQL text can express.
+func otherTypeSameText(v model.Val) (model.Val, bool) {
+	switch v.T {
+	case "i":
+		if v.I >= 0 {
+			return model.Str(strconv.FormatInt(v.I, 10)), true
+		}
+	case "b":
+		return model.Str(strconv.FormatBool(v.B)), true
+	case "s":
+		if n, err := strconv.ParseInt(v.S, 10, 64); err == nil && n >= 0 && strconv.FormatInt(n, 10) == v.S {
+			return model.Int(n), true
+		}
+		if v.S == "true" || v.S == "false" {
+			return model.Bool(v.S == "true"), true
+		}
+	}
+	return v, false
 }
 
 func comparable(a, b model.ColType) bool {
